@@ -381,7 +381,11 @@ func (m *Mux) DropConn(ctx context.Context, cc *grpc.ClientConn) bool {
 	defer m.mu.Unlock()
 	s := m.loadState().clone()
 
-	return s.removeHandler(cc)
+	ok := s.removeHandler(cc)
+	if ok {
+		m.storeState(s)
+	}
+	return ok
 }
 
 // resolver implements protodesc.Resolver.
